@@ -46,6 +46,8 @@ type Ctx struct {
 	// converted: functions of the pinned tree that are now methods of their first parameter's type, or the reverse
 	// (name in the pinned tree -> the function's object today)
 	converted map[string]*types.Func
+	// Renamed: "new stands for old" for the functions recognised as renamed (reported in the evidence)
+	Renamed []string
 
 	aliasOnce sync.Once
 	aliases   map[types.Object]types.Object
@@ -193,6 +195,7 @@ func loadOnce(repo string, o loadOpts) (*Ctx, error) {
 		}
 	}
 	c.registerConverted()
+	c.registerRenamed()
 	if o.needSSA {
 		prog, _ := ssautil.AllPackages(pkgs, ssa.InstantiateGenerics)
 		prog.Build()
@@ -254,6 +257,85 @@ func (c *Ctx) registerConverted() {
 				funcAlias[obj] = old
 			}
 		}
+	}
+}
+
+// registerRenamed: an unexported function of the pinned tree that is gone, while exactly one function the pinned tree
+// does not have could be it under a new name (same receiver type — as a receiver or as the first parameter — and the
+// same number of parameters): that function takes its place, as for a conversion. A wrong guess cannot hide anything:
+// without it the rules anchored in the old name report that their function is missing.
+func (c *Ctx) registerRenamed() {
+	var missing []string
+	for old := range baselineFuncs {
+		if c.decls[old] == nil {
+			missing = append(missing, old)
+		}
+	}
+	sort.Strings(missing)
+	var keys []string
+	for k := range c.decls {
+		keys = append(keys, k)
+	}
+	sort.Strings(keys)
+	for _, old := range missing {
+		tn, fnName := "", old
+		if i := strings.IndexByte(old, '.'); i >= 0 {
+			tn, fnName = old[:i], old[i+1:]
+		}
+		if fnName == "" || !(fnName[0] >= 'a' && fnName[0] <= 'z') {
+			continue
+		}
+		np := len(baselineParams[old])
+		var cands []string
+		for _, key := range keys {
+			fd := c.decls[key]
+			obj := c.declObj[fd]
+			if obj == nil || baselineFuncs[key] || fd.Name.IsExported() || fd.Body == nil {
+				continue
+			}
+			if _, done := funcAlias[obj]; done {
+				continue
+			}
+			sig := obj.Type().(*types.Signature)
+			named := func(t types.Type) string {
+				if p, ok := t.(*types.Pointer); ok {
+					t = p.Elem()
+				}
+				if n, ok := t.(*types.Named); ok && n.Obj().Pkg() == c.Types {
+					return n.Obj().Name()
+				}
+				return ""
+			}
+			switch {
+			case tn != "" && sig.Recv() != nil:
+				if named(sig.Recv().Type()) == tn && sig.Params().Len() == np {
+					cands = append(cands, key)
+				}
+			case tn != "" && sig.Recv() == nil:
+				if sig.Params().Len() == np+1 && named(sig.Params().At(0).Type()) == tn {
+					cands = append(cands, key)
+				}
+			case tn == "" && sig.Recv() == nil:
+				if sig.Params().Len() == np && np > 0 {
+					cands = append(cands, key)
+				}
+			}
+		}
+		if len(cands) != 1 {
+			continue
+		}
+		key := cands[0]
+		fd := c.decls[key]
+		obj := c.declObj[fd]
+		c.decls[old] = fd
+		delete(c.decls, key)
+		c.converted[old] = obj
+		if tn != "" {
+			funcAlias[obj] = "(" + tn + ")." + fnName
+		} else {
+			funcAlias[obj] = fnName
+		}
+		c.Renamed = append(c.Renamed, key+" stands for "+old)
 	}
 }
 
@@ -439,10 +521,13 @@ func (c *Ctx) convertedKind(fd *ast.FuncDecl) byte {
 		return 0
 	}
 	if name, ok := funcAlias[obj]; ok {
-		if strings.HasPrefix(name, "(") {
+		isMethodName := strings.HasPrefix(name, "(")
+		switch {
+		case isMethodName && fd.Recv == nil:
 			return 'm'
+		case !isMethodName && fd.Recv != nil:
+			return 'f'
 		}
-		return 'f'
 	}
 	return 0
 }
